@@ -3,7 +3,7 @@
 the outcome in seeded/<id>/meta.json, and restore /repo.  Usage: tools/run_seeded.py [id ...] [--tier quick|thorough]"""
 import json, os, re, subprocess, sys, time
 VERIF = os.path.dirname(os.path.dirname(os.path.abspath(__file__)))
-REPO = "/repo"
+REPO = os.environ.get("VERIF_REPO", "/repo")
 
 
 def sh(cmd, **kw):
